@@ -82,7 +82,8 @@ def kty_fits(alg, kty):
     return {"HS": KTY_OCT, "RS": KTY_RSA, "PS": KTY_RSA, "ES": KTY_EC, "ED": KTY_OKP}.get(fam) == kty
 
 
-ROUTES = {0: "setkey", 1: "cb sets key+alg", 2: "cb sets key only", 3: "setkey(none,key)+cb sets alg", 4: "setkey+noop cb"}
+ROUTES = {0: "setkey", 1: "cb sets key+alg", 2: "cb sets key only", 3: "setkey(none,key)+cb sets alg", 4: "setkey+noop cb",
+          5: "setkey, then refused setkey(alg, no key)", 6: "setkey, then refused setkey(mismatch)", 7: "setkey(HS512, oct:64), then the cell's setkey"}
 SIGS = {0: "empty", 1: "garbage", 2: "valid-by-config-key", 3: "hmac-empty-key", 4: "hmac-public-pem", 5: "hmac-zero-key",
         6: "two-segments-only", 7: "empty-third-plus-fourth-segment", 8: "valid-plus-trailing-dot", 9: "padding-only"}
 
